@@ -211,6 +211,13 @@ class StateMachineMetaclass(type):
 
     def add_state(cls, id, state: State):
         state._set_id(id)
+        other = cls.states_map.get(state.value)
+        if other is not None and other is not state:
+            raise InvalidDefinition(
+                _("States '{}' and '{}' have the same value {!r}.").format(
+                    other.id, state.id, state.value
+                )
+            )
         cls.states.append(state)
         cls.states_map[state.value] = state
         if not hasattr(cls, id):
